@@ -8,6 +8,7 @@ Rules
   R10.raw    hand-written insertion sites (append / insert / addprevious / addnext /
              insert_element_before with literal tags) incl. overrides of generated methods
   R10.card   cardinality clauses (get_or_add overrides guard; group remover covers the group)
+  R10.excl   an alternative of a schema choice is added only after its declared exclusive siblings were removed
 """
 
 from __future__ import annotations
@@ -290,3 +291,4 @@ def run(ctx):
     from checks import c10_sites
 
     c10_sites.run(ctx, prog, S, M, explicit)
+    c10_sites.run_excl(ctx, prog, S, M, c10_sites.LAST_T)
